@@ -159,7 +159,8 @@ fn replay(args: &HashMap<String, String>) {
         let conc = Conc { v: b["v"].as_u64().unwrap_or(0) };
         let cfg = CfgSpec::from_json(&b["cfg"]);
         let calls = b["calls"].as_array().cloned().unwrap_or_default();
-        let (script, desc) = Script::from_abstract(&calls, &conc);
+        let prefill = b["prefill"].as_u64().unwrap_or(0) as usize;
+        let (script, desc) = Script::from_abstract_prefilled(&calls, &conc, prefill);
         let before = now_ms();
         let has_ts = script.calls.iter().any(|c| matches!(c, vharness::emf::Call::Ts(_)));
         // equality of two runs: status, error text and bytes - as a multiset of lines, because the
